@@ -210,6 +210,9 @@ D = {
  'C02-unregister-clones-outside-mutex-r6': ('C02', 'unregister clones the table through a read guard and locks only for the store (round 6, independent rediscovery)', 'two threads mutating the registry, one removing: a registration vanishes / a removed action is back'),
  'C18-iterator-wakes-with-write-r6': ('C18', 'the iterator wakes with WakeMethod::Write on its blocking socket pair (round 6, independent rediscovery)', 'about 278 unread wake-ups, a delivery on another thread and a mutator called by the owner before it reads again: the delivery blocks, the mutator spins'),
  'C18-poisoned-lock-relocked-in-match': ('C18', 'ids.lock() is matched and the Err arm locks again while the poisoned guard is still alive', 'a caught panicking add_signal (poisons the ids mutex), then any add_signal or the drop of the instance: never returns'),
+ 'C08-enqueue-retry-keeps-position-or-r7': ('C08', 'enqueue finds the free position before its CAS loop, looks again only when the word got smaller, and ORs the index in instead of masking (round 7)', 'an enqueue on the same queue completing between another enqueue\'s load and its CAS (send nested in send, two senders): the two indices are OR-ed into one position, recv panics "Full slot with nothing in it" / index out of range'),
+ 'C06-dequeue-head-hoisted-r7': ('C06', 'dequeue reads the head and tests emptiness once, before its CAS retry loop (round 7, independent rediscovery of C08-dequeue-hoisted-head, written against C06)', 'a dequeue on the same queue between another dequeue\'s load and its CAS: one slot owned twice, a value overwritten and lost early, the other slot leaked'),
+ 'C09-wake-coalesced-rearm-before-sleep-r7': ('C09', 'the action writes its wake-up byte only when it flips a `notified` flag; poll_pending clears the flag just before has_signals (round 7; unlike C09-wake-coalescing-flag the re-arm sits before the sleep, and pending() never re-arms)', 'a lower-numbered watched signal delivered while the consumer still walks a batch that handed out a higher-numbered one (or raise; pending(); raise; wait()): slot set, no byte, the consumer blocks'),
 }
 for name, (prop, change, needs) in D.items():
     d = os.path.join(ROOT, 'seeded', name)
